@@ -513,3 +513,13 @@ Proof.
   rewrite (spectral_read_current _ a r (mk_an (an_cls an) (an_dict an) sB)); auto.
   apply set_input_sets, Ha.
 Qed.
+
+(* ================================================================== events object: sample index *)
+Lemma event_sample_on_grid k dt : 0 < dt -> event_sample (k * dt) dt = k.
+Proof. intros H. unfold event_sample. apply Z.div_mul. lia. Qed.
+
+Lemma event_sample_bin ev dt : 0 < dt ->
+  event_sample ev dt * dt <= ev < (event_sample ev dt + 1) * dt.
+Proof.
+  intros H. unfold event_sample. pose proof (Z.div_mod ev dt ltac:(lia)). pose proof (Z.mod_pos_bound ev dt H). nia.
+Qed.
